@@ -10,9 +10,10 @@ wt=/tmp/seedtest-wt.$$
 git -C /repo worktree add -q --detach $wt HEAD || exit 2
 cd $wt || exit 2
 git apply "$p" || git apply -3 "$p" || { echo "patch does not apply"; cd /; git -C /repo worktree remove --force $wt; exit 2; }
-VERIF_REPO=$wt VERIF_EVIDENCE_DIR=/tmp/seedtest-evidence VERIF_WITNESS_DIR=/tmp/seedtest-witness /verif/bin/check "$prop" --tier quick "$@" > /tmp/seedtest.$seed.$prop.log 2>&1
+VERIF_REPO=$wt VERIF_EVIDENCE_DIR=/tmp/seedtest-evidence.$$ VERIF_WITNESS_DIR=/tmp/seedtest-witness.$$ /verif/bin/check "$prop" --tier quick "$@" > /tmp/seedtest.$seed.$prop.log 2>&1
 rc=$?
 cd /; git -C /repo worktree remove --force $wt
 echo "seed=$seed prop=$prop exit=$rc $(grep -c '^VIOLATION' /tmp/seedtest.$seed.$prop.log) violations; $(grep -m1 'rule=' /tmp/seedtest.$seed.$prop.log | cut -c1-220)"
 tail -1 /tmp/seedtest.$seed.$prop.log
+rm -rf /tmp/seedtest-evidence.$$ /tmp/seedtest-witness.$$
 exit $rc
